@@ -18,6 +18,8 @@ INTERVALS = {
     "rev": (2.0, -3.0),
     "tiny": (1e-6, 2e-6),
     "big": (-1e3, 1e3),
+    "micro": (0.0, 1e-9),                   # far below any "is the interval empty" tolerance
+    "offset": (1e6, 1e6 + 1.0),             # short relative to its distance from the origin
     "0_inf": (0.0, INF),
     "ninf_0": (-INF, 0.0),
     "ninf_inf": (-INF, INF),
